@@ -14,7 +14,11 @@ async def work(*a, **kw):
     _log("work", a, kw)
     fut = asyncio.get_running_loop().create_future()
     GATES.append(fut)
-    await fut
+    try:
+        await fut
+    except asyncio.CancelledError as e:
+        _log("work-cancelled", e.args, {})      # what the cancellation carried (the msg parameter of cancel/stop/...)
+        raise
 
 
 async def quick(*a, **kw):
